@@ -79,17 +79,37 @@ Proof.
 Qed.
 
 (* ---- C03: LINGER drops every byte it reads, decodes nothing ---- *)
-Lemma linger_discards c wb s :
+Definition is_discard (e : tev) : bool := match e with TDiscard _ => true | _ => false end.
+
+Lemma linger_no_dispatch c wb s :
   let s' := poll_linger c wb s in
-  (rbuf s' = [] \/ s' = s) /\ ext (fun e => match e with TDiscard _ => true | _ => false end) s s' /\
-  dstate s' = dstate s /\ messages s' = messages s /\ hs s' = hs s.
+  dstate s' = dstate s /\ messages s' = messages s /\ hs s' = hs s /\ chans s' = chans s /\ ext is_discard s s'.
 Proof.
-  unfold poll_linger, flush.
-  destruct (is_nil (wbuf s)) eqn:W; [|destruct wb]; cbn [negb fst snd].
-  2:{ repeat split; auto. apply ext_refl. }
-  all: unfold ensure_linger_timer, read_available, unfinish; repeat bm; cbn.
-  all: repeat match goal with E : (_, _) = (_, _) |- _ => inv E end; cbn.
-  all: repeat split; auto; try apply ext_refl; try (apply ext_same; reflexivity).
-  all: try (eapply ext_one; [reflexivity|reflexivity]).
-  all: try (left; match goal with H : is_nil ?l = true |- _ => destruct l; [reflexivity|discriminate] end).
+  unfold poll_linger.
+  destruct (flush wb s) as [s1 ok] eqn:E1.
+  assert (A1 : dstate s1 = dstate s /\ messages s1 = messages s /\ hs s1 = hs s /\ chans s1 = chans s /\ trace s1 = trace s).
+  { unfold flush in E1. repeat bmh E1; inv E1; cbn; auto. }
+  destruct A1 as (a1 & b1 & c1 & d1 & e1). destruct ok; cbn [negb].
+  2:{ repeat split; auto. apply ext_same; exact e1. }
+  destruct (ensure_linger_timer c s1) as [s2 have] eqn:E2.
+  assert (A2 : dstate s2 = dstate s /\ messages s2 = messages s /\ hs s2 = hs s /\ chans s2 = chans s /\ trace s2 = trace s).
+  { unfold ensure_linger_timer in E2. repeat bmh E2; inv E2; cbn; auto. }
+  destruct A2 as (a2 & b2 & c2 & d2 & e2). destruct have; cbn [negb].
+  2:{ cbn. repeat split; auto. apply ext_same; exact e2. }
+  destruct (read_available s2) as [[s3 d] io] eqn:E3.
+  assert (A3 : dstate s3 = dstate s /\ messages s3 = messages s /\ hs s3 = hs s /\ chans s3 = chans s /\ trace s3 = trace s).
+  { unfold read_available, unfinish in E3. repeat bmh E3; inv E3; cbn; auto. }
+  destruct A3 as (a3 & b3 & c3 & d3 & e3). destruct io.
+  { cbn. repeat split; auto. apply ext_same; exact e3. }
+  destruct (is_nil (rbuf s3)); destruct d; cbn; repeat split; auto; try (apply ext_same; exact e3).
+  all: apply ext_one with (e := TDiscard (length (rbuf s3))); [cbn; rewrite e3; reflexivity|reflexivity].
+Qed.
+
+Lemma linger_drops_what_it_reads c wb s s1 s2 s3 d :
+  flush wb s = (s1, true) -> ensure_linger_timer c s1 = (s2, true) -> read_available s2 = (s3, d, false) ->
+  rbuf (poll_linger c wb s) = [].
+Proof.
+  intros E1 E2 E3. unfold poll_linger. rewrite E1. cbn [negb]. rewrite E2. cbn [negb]. rewrite E3.
+  destruct (is_nil (rbuf s3)) eqn:N; destruct d; cbn; auto.
+  all: destruct (rbuf s3); [reflexivity|discriminate].
 Qed.
